@@ -8,7 +8,8 @@ the state reached so far.  `refused_unchanged_*`: whenever the model raises, the
 it started from.  `reuse_refused`: a node that is not the whole of its store is always refused by `detach`.
 The witnesses show that the orders *before* the `fix:` commits did not have the property (so the theorems are
 about the order of statements, not true by construction).  The store-level refusal ("already in a store") is
-`C07.spliceCore_rejects_foreign`.
+`C07.spliceCore_rejects_foreign`.  Further sites: `refused_unchanged_setPayee` (witness `setPayeeOld_witness`),
+`refused_unchanged_setCostNumber(/Bare)` (witness `setCostNumberOld_witness`), `refused_unchanged_claim`.
 -/
 namespace Autobean.C19
 open Autobean.Refuse
@@ -155,6 +156,181 @@ theorem store_rejects_foreign (c : LF) (s : Store) (ts : List Tok) (start stop :
     (hex : ∃ t ∈ ts, ∃ hd, t.h = some hd ∧ hd.sid ≠ s.sid) :
     spliceCore c s ts start stop = .error "ValueError:already-in-store" :=
   Autobean.C07.spliceCore_rejects_foreign c s ts start stop hall hex
+
+/-! ## More refusal sites: payee setter, cost number setters, `claim_interleaving_comments` -/
+
+theorem bind_apply {σ α β : Type} (m : M σ α) (f : α → M σ β) (s : σ) :
+    (m >>= f) s = match m s with
+      | (.ok a, s') => f a s'
+      | (.error e, s') => (.error e, s') := rfl
+
+theorem pure_apply {σ α : Type} (a : α) (s : σ) : (pure a : M σ α) s = (.ok a, s) := rfl
+
+theorem detach_free {σ : Type} (d : Donor) (s : σ) (h : d.attached = false) : detach d s = (.ok (), s) := by
+  simp [detach, h, pure_apply]
+
+theorem detach_attached {σ : Type} (d : Donor) (s : σ) (h : d.attached = true) :
+    detach d s = (.error "ValueError:reuse", s) := by
+  simp [detach, h, raiseE]
+
+/-- **`txn.raw_payee = value`.**  If the assignment raises (the value is attached elsewhere), nothing has been touched:
+in particular no empty narration has been created. -/
+theorem refused_unchanged_setPayee {σ : Type} (set1 : Option Nat → σ → σ) (narrNone : σ → Bool) (mkNarr : σ → σ)
+    (v : Option Donor) (s s' : σ) (e : String) (h : setPayee set1 narrNone mkNarr v s = (.error e, s')) : s' = s := by
+  unfold setPayee at h
+  cases v with
+  | none =>
+    simp [assignString1, fixNarration, bind_apply, modifyS, getS, pure_apply] at h
+  | some d =>
+    by_cases ha : d.attached = true
+    · have h1 : assignString1 set1 (some d) s = (.error "ValueError:reuse", s) := by
+        simp only [assignString1]; exact bind_err (detach_attached d s ha)
+      rw [bind_err h1] at h
+      exact (Prod.mk.inj h).2.symm
+    · have ha' : d.attached = false := by simpa using ha
+      have h1 : assignString1 set1 (some d) s = (.ok (), set1 (some d.id) s) := by
+        simp only [assignString1]; rw [bind_ok (detach_free d s ha')]; rfl
+      rw [bind_ok h1] at h
+      simp only [fixNarration, bind_apply, getS] at h
+      split at h <;> simp [modifyS, pure_apply] at h
+
+/-- … it raises exactly for an attached value, and an accepted call sets the slot and then fixes the narration. -/
+theorem setPayee_raises_iff {σ : Type} (set1 : Option Nat → σ → σ) (narrNone : σ → Bool) (mkNarr : σ → σ)
+    (v : Option Donor) (s : σ) :
+    (∃ e s', setPayee set1 narrNone mkNarr v s = (.error e, s')) ↔ ∃ d, v = some d ∧ d.attached = true := by
+  unfold setPayee
+  cases v with
+  | none => simp [assignString1, fixNarration, bind_apply, modifyS, getS, pure_apply]
+  | some d =>
+    by_cases ha : d.attached = true
+    · have h1 : assignString1 set1 (some d) s = (.error "ValueError:reuse", s) := by
+        simp only [assignString1]; exact bind_err (detach_attached d s ha)
+      rw [bind_err h1]
+      simp [ha]
+    · have ha' : d.attached = false := by simpa using ha
+      have h1 : assignString1 set1 (some d) s = (.ok (), set1 (some d.id) s) := by
+        simp only [assignString1]; rw [bind_ok (detach_free d s ha')]; rfl
+      rw [bind_ok h1]
+      simp only [fixNarration, bind_apply, getS]
+      split <;> simp [modifyS, pure_apply, ha']
+
+/-- Witness: with the order before the repair (empty narration first) a refused `raw_payee = attached` on
+`2000-01-01 *` has left the empty narration (id 0) behind. -/
+theorem setPayeeOld_witness :
+    setPayeeOld (σ := TxnStrings) (fun v t => { t with string1 := v }) (fun t => t.string2.isNone)
+        (fun t => { t with string2 := some 0 }) (some ⟨7, true⟩) ⟨none, none⟩ =
+      (.error "ValueError:reuse", ⟨none, some 0⟩) := rfl
+
+/-- … while the repaired order refuses the same call with the header untouched, and accepts a free value. -/
+theorem setPayee_witness :
+    setPayee (σ := TxnStrings) (fun v t => { t with string1 := v }) (fun t => t.string2.isNone)
+        (fun t => { t with string2 := some 0 }) (some ⟨7, true⟩) ⟨none, none⟩ =
+      (.error "ValueError:reuse", ⟨none, none⟩) ∧
+    setPayee (σ := TxnStrings) (fun v t => { t with string1 := v }) (fun t => t.string2.isNone)
+        (fun t => { t with string2 := some 0 }) (some ⟨7, false⟩) ⟨none, none⟩ =
+      (.ok (), ⟨some 7, some 0⟩) := ⟨rfl, rfl⟩
+
+theorem buildComp_free {σ κ : Type} (mk : Donor → σ → κ) (v : Donor) (s : σ) (h : v.attached = false) :
+    buildComp mk v s = (.ok (mk v s), s) := by
+  unfold buildComp
+  rw [bind_ok (detach_free v s h)]
+  rfl
+
+theorem buildComp_attached {σ κ : Type} (mk : Donor → σ → κ) (v : Donor) (s : σ) (h : v.attached = true) :
+    buildComp mk v s = (.error "ValueError:reuse", s) := by
+  unfold buildComp
+  exact bind_err (detach_attached v s h)
+
+/-- **`cost.raw_number_per / raw_number_total = value` where the brace kind changes.**  If building the new component
+raises (attached value), the braces have not been flipped and no component has been stored. -/
+theorem refused_unchanged_setCostNumber {σ κ : Type} (mk : Donor → σ → κ) (flip : σ → σ) (store : κ → σ → σ)
+    (v : Donor) (s s' : σ) (e : String) (h : setCostNumber mk flip store v s = (.error e, s')) : s' = s := by
+  unfold setCostNumber at h
+  by_cases ha : v.attached = true
+  · rw [bind_err (buildComp_attached mk v s ha)] at h
+    exact (Prod.mk.inj h).2.symm
+  · have ha' : v.attached = false := by simpa using ha
+    rw [bind_ok (buildComp_free mk v s ha')] at h
+    simp [bind_apply, modifyS] at h
+
+/-- An accepted call flips and stores the component built from the *un-flipped* cost. -/
+theorem accepted_setCostNumber {σ κ : Type} (mk : Donor → σ → κ) (flip : σ → σ) (store : κ → σ → σ)
+    (v : Donor) (s : σ) (h : v.attached = false) :
+    setCostNumber mk flip store v s = (.ok (), store (mk v s) (flip s)) := by
+  unfold setCostNumber
+  rw [bind_ok (buildComp_free mk v s h)]
+  rfl
+
+/-- The bare-number branch (`raw_number_comp = value`, then flip). -/
+theorem refused_unchanged_setCostNumberBare {σ : Type} (flip : σ → σ) (store : Nat → σ → σ)
+    (v : Donor) (s s' : σ) (e : String) (h : setCostNumberBare flip store v s = (.error e, s')) : s' = s := by
+  unfold setCostNumberBare at h
+  by_cases ha : v.attached = true
+  · rw [bind_err (detach_attached v s ha)] at h
+    exact (Prod.mk.inj h).2.symm
+  · have ha' : v.attached = false := by simpa using ha
+    rw [bind_ok (detach_free v s ha')] at h
+    simp [bind_apply, modifyS] at h
+
+/-- Witness: with the order before the repair (flip, then build) a refused `raw_number_per = attached` on `{{2 EUR}}`
+has turned the cost into `{2 EUR}`. -/
+theorem setCostNumberOld_witness :
+    setCostNumberOld (σ := CostBraces) (κ := Nat) (fun v _ => v.id) (fun c => { c with total := !c.total })
+        (fun k c => { c with comps := [k] }) ⟨9, true⟩ ⟨true, [4]⟩ =
+      (.error "ValueError:reuse", ⟨false, [4]⟩) ∧
+    setCostNumberBareOld (σ := CostBraces) (fun c => { c with total := !c.total })
+        (fun k c => { c with comps := [k] }) ⟨9, true⟩ ⟨true, []⟩ =
+      (.error "ValueError:reuse", ⟨false, []⟩) := ⟨rfl, rfl⟩
+
+theorem setCostNumber_witness :
+    setCostNumber (σ := CostBraces) (κ := Nat) (fun v _ => v.id) (fun c => { c with total := !c.total })
+        (fun k c => { c with comps := [k] }) ⟨9, true⟩ ⟨true, [4]⟩ =
+      (.error "ValueError:reuse", ⟨true, [4]⟩) ∧
+    setCostNumber (σ := CostBraces) (κ := Nat) (fun v _ => v.id) (fun c => { c with total := !c.total })
+        (fun k c => { c with comps := [k] }) ⟨9, false⟩ ⟨true, [4]⟩ =
+      (.ok (), ⟨false, [9]⟩) := ⟨rfl, rfl⟩
+
+/-- **`claim_interleaving_comments(comments)`.**  A raise ("comment(s) not found") happens before any placeholder is
+shifted, any flag set or `items` replaced: the document is exactly what it was. -/
+theorem refused_unchanged_claim {σ : Type} (find : σ → Found) (wanted : Option (List Nat))
+    (shiftBefore shiftAfter : List Nat → σ → σ) (commit : Found → σ → σ) (s s' : σ) (e : String)
+    (h : claimInterleaving find wanted shiftBefore shiftAfter commit s = (.error e, s')) : s' = s := by
+  unfold claimInterleaving at h
+  simp only [bind_apply, getS] at h
+  split at h
+  · exact (Prod.mk.inj h).2.symm
+  · simp [bind_apply, whenS, modifyS, pure_apply] at h
+
+/-- … it raises exactly when a named comment was not met by the searches (never for `comments=None`). -/
+theorem claim_raises_iff {σ : Type} (find : σ → Found) (wanted : Option (List Nat))
+    (shiftBefore shiftAfter : List Nat → σ → σ) (commit : Found → σ → σ) (s : σ) :
+    (∃ e s', claimInterleaving find wanted shiftBefore shiftAfter commit s = (.error e, s')) ↔
+      notFound wanted (find s) ≠ [] := by
+  unfold claimInterleaving
+  simp only [bind_apply, getS]
+  split
+  · rename_i hn
+    simp [raiseE, hn]
+  · rename_i hn
+    simp [bind_apply, whenS, modifyS, pure_apply, hn]
+
+theorem claim_all_never_raises {σ : Type} (find : σ → Found) (shiftBefore shiftAfter : List Nat → σ → σ)
+    (commit : Found → σ → σ) (s : σ) :
+    ¬ ∃ e s', claimInterleaving find none shiftBefore shiftAfter commit s = (.error e, s') := by
+  rw [claim_raises_iff]; simp [notFound]
+
+/-- Witness (hypothetical order, see `claimInterleavingCheckLast`): checking after the shifts would leave the
+placeholder moved when comment 9 is not found (state = token order; 1 = comment before, 0 = placeholder). -/
+theorem claimCheckLast_witness :
+    claimInterleavingCheckLast (σ := List Nat) (fun _ => ⟨[1], [(2, false)], []⟩) (some [1, 9])
+        (fun _ l => l.reverse) (fun _ l => l) (fun _ l => l) [1, 0] =
+      (.error "ValueError:notfound", [0, 1]) ∧
+    claimInterleaving (σ := List Nat) (fun _ => ⟨[1], [(2, false)], []⟩) (some [1, 9])
+        (fun _ l => l.reverse) (fun _ l => l) (fun _ l => l) [1, 0] =
+      (.error "ValueError:notfound", [1, 0]) ∧
+    claimInterleaving (σ := List Nat) (fun _ => ⟨[1], [(2, false)], []⟩) (some [1])
+        (fun _ l => l.reverse) (fun _ l => l) (fun _ l => l) [1, 0] =
+      (.ok [1], [0, 1]) := ⟨rfl, rfl, rfl⟩
 
 /-! Non-vacuity: a refused and an accepted batch. -/
 example : ∃ e s', setSlice (σ := List Nat) (fun l => l.drop 1) (fun _ l => l) [⟨7, false⟩, ⟨3, true⟩] [1, 2] = (.error e, s') ∧ s' = [1, 2] :=
